@@ -262,6 +262,8 @@ def check(ctx: Ctx) -> None:
             for t in cfg.nodes:
                 if t.kind == "test" and unparse(t.ast) == f"{var} is ENDMARKER":
                     em_edges |= cfg.out_edges(t.id, "true")
+                elif t.kind == "test" and unparse(t.ast) in (f"{var} is not ENDMARKER", f"not {var} is ENDMARKER"):
+                    em_edges |= cfg.out_edges(t.id, "false")
             starts = [m for (m, l) in cfg.succ[gn[0].id] if not l.startswith("exc:")]
             p = cfg.must_pass(starts, [gn[0].id, cfg.exit.id], {x.id for x in cn}, em_edges)
             if p is not None:
